@@ -280,7 +280,7 @@ Proof.
     assert (RF' : exists lk, ce <> [] -> HeapRep.rep_flds lk (Heap.m hs) (map snd ce) q).
     { destruct (hinv_last_rep p _ _ _ _ _ _ HI) as (lk & RP). exists lk. intros _. inversion RP; subst. assumption. }
     destruct RF' as (lk & RFlk).
-    destruct (hsim_invoke im p stop STOPC ENDC ENC _ _ hs st v tag (Decl tn) args code lc lc' pc he0 x tn cls ce q cl e1 lk hl fl cl0
+    destruct (hsim_invoke im p stop STOPC ENDC _ _ hs st v tag (Decl tn) args code lc lc' pc he0 x tn cls ce q cl e1 lk hl fl cl0
                 R (XC.split_last1_app _ _) FC BD LC0 CS (proj1 PL) IA K03 ltac:(lia) RFlk)
       as (pcb & lcb & cb & lcb' & s' & X' & CSb & PLb & LCb & ANb & FRb & R').
     apply X'.
